@@ -177,8 +177,13 @@ class Prop(PropBase):
                 exp = []
                 for k in range(rng.choice([5, 8]) if not l.jumbo else 3):
                     p = with_crc(mk())
-                    how = rng.choice(['ok', 'ok', 'flip', 'flip', 'flipcrc', 'flipcnt', 'stale', 'zero'])
+                    how = rng.choice(['ok', 'ok', 'flip', 'flip', 'flipcrc', 'flipcnt', 'stale', 'zero', 'short', 'runt'])
                     b = bytearray(p)
+                    if how == 'short':      # wrong length: rejected for its length, whatever its trailing bytes say
+                        q = p[:rng.choice([100, 6, 7, len(p) - 1, len(p) - 6])]
+                        b = bytearray(with_crc(q) if rng.random() < 0.4 else q)
+                    elif how == 'runt':     # shorter than the CRC trailer itself
+                        b = bytearray(p[:rng.choice([2, 3, 4, 5])])
                     if how == 'flip':
                         b[rng.randrange(len(b))] ^= 1 << rng.randrange(8)
                     elif how == 'flipcrc':
